@@ -59,6 +59,7 @@ Record sound (f : facts) : Prop := {
   s_assign_plain : forall rt o, aw_sem (f_assign_plain f) rt (Plain o) = wrap rt o;
   s_assign_filter : forall rt v, aw_sem (f_assign_filter f) rt v = if rt then esc v else v;
   (* macro / call-block bodies return plain text, Macro._invoke and BlockReference wrap by the flag *)
+  s_tdata : f_tdata_no_finalize f = true;
   s_macro_forced : f_macro_forced f = true;
   s_macro_default : f_macro_default_rt f = true;
   s_callblock : f_callblock_raw f = true;
@@ -71,7 +72,7 @@ Record sound (f : facts) : Prop := {
 Theorem codegen_sound : forall f, facts_ok f = true -> sound f.
 Proof.
   intros f H. unfold facts_ok in H. repeat rewrite andb_true_iff in H.
-  destruct H as ((((((((((((((Hout & Hbal) & Hconst) & Hlen) & Hfb) & Hbuf) & Hret) & Hap) & Haf) & Hcat) & Hmf) & Hmd) & Hcb) & Hinv) & Hblk).
+  destruct H as (((((((((((((((Hout & Hbal) & Htd) & Hconst) & Hlen) & Hfb) & Hbuf) & Hret) & Hap) & Haf) & Hcat) & Hmf) & Hmd) & Hcb) & Hinv) & Hblk).
   constructor.
   - intros vol ae. destruct (ow_tbl_sound _ Hout vol ae) as (w & E & Hw). exists w. split; [exact E|].
     intros rt v. unfold ow_sem. now rewrite Hw.
@@ -83,6 +84,7 @@ Proof.
     intros rt a b. unfold join_sem. now rewrite Hw.
   - intros rt o. destruct (f_assign_plain f); [|discriminate]. cbn. destruct rt; reflexivity.
   - intros rt v. destruct (f_assign_filter f); [discriminate|]. reflexivity.
+  - exact Htd.
   - exact Hmf.
   - exact Hmd.
   - exact Hcb.
@@ -101,7 +103,7 @@ Theorem output_escapes_when_on : forall f, facts_ok f = true ->
   (exists w, find2 (f_out f) vol ae = Some w /\ ow_sem w rt v = esc_str v) /\
   (exists w, find2 (f_fblock f) vol ae = Some w /\ ow_sem w rt v = esc_str v).
 Proof.
-  intros f H vol ae rt v Hon. destruct (codegen_sound f H) as [So Sf _ _ _ _ _ _ _ _ _ _].
+  intros f H vol ae rt v Hon. destruct (codegen_sound f H) as [So Sf _ _ _ _ _ _ _ _ _ _ _].
   split.
   - destruct (So vol ae) as (w & E & Hw). exists w. split; [exact E|]. rewrite Hw, Hon. reflexivity.
   - destruct (Sf vol ae) as (w & E & Hw). exists w. split; [exact E|]. rewrite Hw, Hon. reflexivity.
